@@ -5,6 +5,7 @@ import (
 	"flag"
 	"fmt"
 	"os"
+	"runtime/pprof"
 	"sort"
 	"strings"
 	"time"
@@ -63,7 +64,13 @@ func main() {
 	flag.IntVar(&cfg.Verbose, "v", 0, "verbosity")
 	params := flag.String("params", "", "k=v,k=v harness parameters (bounds)")
 	required := flag.String("require-reach", "", "comma-separated reach markers that must be hit on some path")
+	cpuprof := flag.String("cpuprofile", "", "write cpu profile")
 	flag.Parse()
+	if *cpuprof != "" {
+		f, _ := os.Create(*cpuprof)
+		pprof.StartCPUProfile(f)
+		defer pprof.StopCPUProfile()
+	}
 
 	cfg.Params = map[string]int{}
 	for _, kv := range strings.Split(*params, ",") {
@@ -182,6 +189,9 @@ func main() {
 	b, _ := json.MarshalIndent(res, "", " ")
 	if *out != "" {
 		os.WriteFile(*out, b, 0o644)
+	}
+	if *cpuprof != "" {
+		pprof.StopCPUProfile()
 	}
 	os.Exit(exit)
 }
